@@ -6,6 +6,7 @@ pub mod c09;
 pub mod c10;
 pub mod wiretypes;
 pub mod c11;
+pub mod c13;
 pub mod util;
 
 pub fn dispatch(id: &str, args: &Args) -> Option<Report> {
@@ -15,6 +16,7 @@ pub fn dispatch(id: &str, args: &Args) -> Option<Report> {
         "C09" => c09::run(args),
         "C10" => c10::run(args),
         "C11" => c11::run(args),
+        "C13" => c13::run(args),
         _ => return None,
     })
 }
